@@ -34,10 +34,14 @@ def instantiate(tr, w, variant):
     return ''.join(out)
 
 
-def bind_to_re(tr, pats, states, rep):
-    """Every product state and every product transition against the real engine."""
+def bind_to_re(tr, pats, states, rep, observed=None):
+    """Every product state and every product transition against the real engine.  Patterns in tr['approx'] (constructs
+    the translator can only over-approximate) may disagree with their automaton; the acceptance sets the engine reports
+    are collected in `observed` so that the clauses can be judged on them."""
     names = list(pats.keys())
+    approx = tr.get('approx') or {}
     checked = 0
+    disagree = 0
     for st in states:
         w = st['w']
         for c in range(0, len(tr['classes']) + 1):
@@ -46,14 +50,47 @@ def bind_to_re(tr, pats, states, rep):
             nvar = 3 if c else 2
             for variant in range(nvar):
                 s = instantiate(tr, seq, variant)
+                acc = []
                 for n in names:
                     real = pats[n].match(s) is not None
                     checked += 1
+                    if real:
+                        acc.append(n)
                     if real != (n in predicted):
-                        raise MachineryError('translator/re disagreement on %r for %s: re=%s automaton=%s' % (
-                            s, n, real, n in predicted))
+                        if n in approx:
+                            disagree += 1
+                            continue
+                        if not approx:
+                            raise MachineryError('translator/re disagreement on %r for %s: re=%s automaton=%s' % (
+                                s, n, real, n in predicted))
+                        # a composite built from an approximated part differs too: tolerated, judged on the observation
+                        disagree += 1
+                if observed is not None:
+                    observed.append({'s': [ord(ch) for ch in s], 'acc': acc})
     rep.count('evaluations', checked)
+    if approx:
+        rep.setcov('automaton_vs_engine_disagreements_on_approximated_patterns', disagree)
     return checked
+
+
+def judge_observed(specdir, sc, observed, tr, pats, rep):
+    """TLC evaluates EventCodes!Clauses on the acceptance sets the real engine reported"""
+    seen = {}
+    for o in observed:
+        seen.setdefault(tuple(o['acc']), o)
+    recs = list(seen.values())
+    reports, outs = common.validate_records(specdir, sc, 'Trace_EventCodes', recs, nshards=4, tag='c04obs')
+    for r in outs:
+        rep.absorb_tlc(r)
+    for pr in reports:
+        o = recs[pr['index']]
+        s = ''.join(chr(c) for c in o['s'])
+        for cl in pr['clauses']:
+            rep.add_violation('%s:%s' % (cl, '+'.join(sorted(set(o['acc']) & {'PAT_TIMED_EVENT', 'PAT_FIELD', 'PAT_MULTI',
+                              'PAT_RACES_FOR_DISTANCE', 'PAT_EVENT_CODE'}))),
+                              '%s: the string %r is accepted by exactly %s' % (cl, s, sorted(o['acc'])),
+                              {'string': s, 'clause': cl, 'accepted_by': sorted(o['acc'])})
+    return len(recs)
 
 
 def run(tier):
@@ -72,14 +109,24 @@ def run(tier):
         states = r.printed
         if len(states) != r.distinct:
             raise MachineryError('expected one line per product state (%d vs %d)' % (len(states), r.distinct))
-        bind_to_re(tr, pats, states, rep)
+        approx = tr.get('approx') or {}
+        observed = [] if approx else None
+        bind_to_re(tr, pats, states, rep, observed)
+        if approx:
+            # no decision for these patterns: the clauses are judged on what the engine answers for the witnesses
+            n = judge_observed(specdir, sc, observed, tr, pats, rep)
+            rep.setcov('approximated_patterns', approx)
+            rep.setcov('observed_acceptance_sets_judged', n)
+            rep.notes.append('patterns %s use constructs translated as an over-approximation (%s): for them the verdict rests on the '
+                     'engine\'s answers for %d witness strings, not on the complete automaton' % (
+                         sorted(approx), sorted({w for v in approx.values() for w in v}), len(observed)))
         accepted_somewhere = set()
         for st in states:
             accepted_somewhere |= set(st['acc'])
         never = [n for n in required if n not in accepted_somewhere]
         if never:
             raise MachineryError('vacuity guard: patterns never accepted in the product automaton: %s' % never)
-        rep.setcov('exhaustive', True)
+        rep.setcov('exhaustive', not approx)
         rep.setcov('code_point_classes', len(tr['classes']))
         rep.setcov('patterns', len(pats))
         rep.setcov('nfa_states', {n: tr['nfas'][n].n for n in tr['names']})
